@@ -178,8 +178,18 @@ func scteDescOp(d scte35.SegmentationDescriptor, o Val) {
 		if j >= 0 && j < len(m) {
 			m[j].SetUPIDType(scte35.SegUPIDType(o.L[2].U()))
 		}
+	case 22:
+		j := o.L[1].Int()
+		cs := d.Components()
+		if j >= 0 && j < len(cs) {
+			if o.L[2].L[0].Int() == 0 {
+				cs[j].SetComponentTag(byte(o.L[2].L[1].U()))
+			} else {
+				cs[j].SetPTSOffset(gots.PTS(o.L[2].L[1].U()))
+			}
+		}
 	// ---- arguments taken from the SAME object's getters (scte.hist only; notes/aliasing.md)
-	case 22: // SetMID(list made of own MID() entries (by index) and fresh UPIDs ([ty xbytes]))
+	case 32: // SetMID(list made of own MID() entries (by index) and fresh UPIDs ([ty xbytes]))
 		own := d.MID()
 		us := []scte35.UPID{}
 		for _, e := range o.L[1].L {
@@ -195,7 +205,7 @@ func scteDescOp(d scte35.SegmentationDescriptor, o Val) {
 			us = append(us, u)
 		}
 		d.SetMID(us)
-	case 23: // SetComponents(own Components() in another order / with repetitions)
+	case 33: // SetComponents(own Components() in another order / with repetitions)
 		own := d.Components()
 		cs := []scte35.ComponentOffset{}
 		for _, e := range o.L[1].L {
@@ -204,7 +214,7 @@ func scteDescOp(d scte35.SegmentationDescriptor, o Val) {
 			}
 		}
 		d.SetComponents(cs)
-	case 24: // SetUPID(own UPID())
+	case 34: // SetUPID(own UPID())
 		d.SetUPID(d.UPID())
 	}
 }
@@ -253,7 +263,7 @@ func scteSigOp(s scte35.SCTE35, o Val) {
 		i := o.L[1].Int()
 		ds := s.Descriptors()
 		if i >= 0 && i < len(ds) {
-			if k := o.L[2].L[0].Int(); k == 17 || k == 20 || k == 21 || k == 22 || k == 5 {
+			if k := o.L[2].L[0].Int(); k == 17 || k == 20 || k == 21 || k == 32 || k == 5 {
 				// these calls legitimately change what an entry of MID() handed out earlier shows
 				forgetViews(fmt.Sprintf("descriptor %p MID()", ds[i]))
 			}
